@@ -77,6 +77,10 @@ pub trait Elem: Copy + Clone + Number + Signed + PartialOrd + Debug + Neg<Output
     }
     /// exact scaling by 2^k (exact types: multiplication by the rational 2^k)
     fn scale2(self, k: i32) -> Self;
+    /// multiplication by the imaginary unit (complex types; the identity for real ones)
+    fn times_i(self) -> Self {
+        self
+    }
     fn to_c(&self) -> (f64, f64);
     fn finite(&self) -> bool;
     fn is_zero_e(&self) -> bool;
@@ -192,6 +196,9 @@ impl Elem for Cmplx {
     }
     fn scale2(self, k: i32) -> Self {
         Cmplx::new(self.real * 2f64.powi(k), self.imag * 2f64.powi(k))
+    }
+    fn times_i(self) -> Self {
+        Cmplx::new(-self.imag, self.real)
     }
     fn to_c(&self) -> (f64, f64) {
         (self.real, self.imag)
